@@ -29,6 +29,10 @@ def judgeLine (caseId : String) (op : String) (outs : List String) : String × L
     let o := outs.head?.getD ""
     if o == "ok" then (caseId, []) else
       (caseId, [s!"VIOLATION case={caseId} sig=lock:flush-tick-before-header-read got=[{o}]"])
+  | ["close-during-statement"] =>
+    let o := outs.head?.getD ""
+    if o == "stmt=ok rows=3" || o == "stmt=err rows=0" then (caseId, []) else
+      (caseId, [s!"VIOLATION case={caseId} sig=lock:close-during-statement got=[{o}] (acknowledged and complete, or refused and absent)"])
   | ["races"] =>
     let o := outs.head?.getD ""
     if o == "races 0" then (caseId, []) else
